@@ -333,12 +333,16 @@ static std::vector<Subject> subjects() {
 // batch of calls on it.  Scenarios on top of the Subject ones: interleave (two objects, calls interleaved vs in sequence),
 // copy (a copy carries the engine state and leaves the original alone), root_seed (another root seed gives another stream).
 struct Obj { std::function<Out(int)> step; std::function<Obj()> clone; };
-template <class T, class F> static Obj wrapObj(std::shared_ptr<T> p, F f, std::shared_ptr<void> keep = nullptr) {
+// sharesEngine: the object holds a reference to ANOTHER engine-owning object (its model) and samples through it; a copy shares
+// that model, so copy and original are not independent by design — the copy scenarios are skipped for those
+template <class T, class F> static Obj wrapObj(std::shared_ptr<T> p, F f, std::shared_ptr<void> keep = nullptr, bool sharesEngine = false) {
     Obj o; o.step = [p, f, keep](int k) { return f(*p, k); };
-    if constexpr (std::is_copy_constructible_v<T>) o.clone = [p, f, keep]() { return wrapObj(std::make_shared<T>(*p), f, keep); };
+    if constexpr (std::is_copy_constructible_v<T>) { if (!sharesEngine) o.clone = [p, f, keep]() { return wrapObj(std::make_shared<T>(*p), f, keep); }; }
     return o;
 }
-struct Stepper { const char * name; bool seedSensitive; int nsteps; std::function<Obj(uint64_t)> make; };
+// drawsSeeds: a call constructs an engine-owning helper (PBVI/PERSEUS build a BeliefGenerator per call), i.e. it advances the
+// Seeder: calls of two such objects do not commute (Gen/C16Rng.callsThatDrawSeeds pins the list); interleave is skipped
+struct Stepper { const char * name; bool seedSensitive; int nsteps; std::function<Obj(uint64_t)> make; bool drawsSeeds = false; };
 
 static A::POMDP::SparseModel<A::MDP::SparseModel> toSparseNoCheck(const PomdpTables & p) {
     A::SparseMatrix3D T(p.A, A::SparseMatrix2D(p.S, p.S)), Ob(p.A, A::SparseMatrix2D(p.S, p.O)); A::SparseMatrix2D R(p.S, p.A);
@@ -359,8 +363,8 @@ static std::vector<Stepper> steppers() {
         auto t = mdpOf(ps); auto m = std::make_shared<A::MDP::SparseModel>(toDense(t));
         return wrapObj(m, [t](A::MDP::SparseModel & mm, int k) { Out o; size_t s = k % t.S; for (int i = 0; i < 8; ++i) { auto [s1, r] = mm.sampleSR(s, (i + k) % t.A); o.push_back((double)s1); o.push_back(r); s = s1; } return o; }); }});
     v.push_back({"POMDP::Model(checked)::sampleSOR", false, 3, [](uint64_t ps) {
-        auto p = pomdpOf(ps); auto d = toDense(p);
-        auto m = std::make_shared<A::POMDP::Model<A::MDP::Model>>(d);   // converting constructor: checks, draws two seeds
+        auto p = pomdpOf(ps); auto d = toSparseNoCheck(p);
+        auto m = std::make_shared<A::POMDP::Model<A::MDP::Model>>(d);   // converting constructor (from another model type): checks, draws two seeds
         return wrapObj(m, [p](A::POMDP::Model<A::MDP::Model> & mm, int k) { Out o; size_t s = k % p.S; for (int i = 0; i < 8; ++i) { auto [s1, ob, r] = mm.sampleSOR(s, (i + k) % p.A); o.push_back((double)s1); o.push_back((double)ob); o.push_back(r); s = s1; } return o; }); }});
     // observation streams of the NO_CHECK-constructed POMDP models (32 draws over 4 equiprobable observations per step)
     v.push_back({"POMDP::Model(NO_CHECK)::observations", true, 3, [](uint64_t ps) {
@@ -370,7 +374,7 @@ static std::vector<Stepper> steppers() {
         auto p = uniformObs(ps); auto m = std::make_shared<A::POMDP::SparseModel<A::MDP::SparseModel>>(toSparseNoCheck(p));
         return wrapObj(m, [p](A::POMDP::SparseModel<A::MDP::SparseModel> & mm, int k) { Out o; for (int i = 0; i < 32; ++i) { auto [ob, r] = mm.sampleOR(i % p.S, (i + k) % p.A, (i + 1) % p.S); o.push_back((double)ob); (void)r; } return o; }); }});
     v.push_back({"POMDP::Model(checked)::observations", true, 3, [](uint64_t ps) {
-        auto p = uniformObs(ps); auto d = toDense(p); auto m = std::make_shared<A::POMDP::Model<A::MDP::Model>>(d);
+        auto p = uniformObs(ps); auto d = toSparseNoCheck(p); auto m = std::make_shared<A::POMDP::Model<A::MDP::Model>>(d);
         return wrapObj(m, [p](A::POMDP::Model<A::MDP::Model> & mm, int k) { Out o; for (int i = 0; i < 32; ++i) { auto [ob, r] = mm.sampleOR(i % p.S, (i + k) % p.A, (i + 1) % p.S); o.push_back((double)ob); (void)r; } return o; }); }});
     v.push_back({"DoubleQLearning", true, 3, [](uint64_t ps) {
         auto t = mdpOf(ps); auto l = std::make_shared<A::MDP::DoubleQLearning>(t.S, t.A, t.discount, 0.5);
@@ -382,7 +386,7 @@ static std::vector<Stepper> steppers() {
         auto l = std::make_shared<A::MDP::DynaQ<A::MDP::Model>>(*m, 0.5, 5);
         return wrapObj(l, [t, ps](A::MDP::DynaQ<A::MDP::Model> & q, int k) { Rng r(ps ^ (uint64_t)(k + 1)); size_t s = 0;
             for (int i = 0; i < 10; ++i) { size_t a = r.below(t.A), s1 = r.below(t.S); q.stepUpdateQ(s, a, s1, dyadicReward(r)); q.batchUpdateQ(); s = s1; }
-            Out o; flat(o, q.getQFunction()); return o; }, m); }});
+            Out o; flat(o, q.getQFunction()); return o; }, m, true); }});
     v.push_back({"MDP::Policies::sampleAction", true, 3, [](uint64_t ps) {
         struct Pack { A::MDP::QFunction q; A::MDP::QGreedyPolicy g; A::MDP::EpsilonPolicy e; A::MDP::QSoftmaxPolicy sm; A::MDP::RandomPolicy rp;
                       Pack(A::MDP::QFunction qq, size_t S, size_t Ac) : q(std::move(qq)), g(q), e(g, 0.5), sm(q, 1.0), rp(S, Ac) {} Pack(const Pack &) = delete; };
@@ -392,27 +396,27 @@ static std::vector<Stepper> steppers() {
     v.push_back({"MCTS", false, 2, [](uint64_t ps) {
         auto t = mdpOf(ps); auto m = std::make_shared<A::MDP::Model>(toDense(t));
         auto s = std::make_shared<A::MDP::MCTS<A::MDP::Model>>(*m, 40, 2.0);
-        return wrapObj(s, [t](A::MDP::MCTS<A::MDP::Model> & x, int k) { Out o; o.push_back((double)x.sampleAction(k % t.S, 3)); o.push_back((double)x.sampleAction((k + 1) % t.S, 2)); return o; }, m); }});
+        return wrapObj(s, [t](A::MDP::MCTS<A::MDP::Model> & x, int k) { Out o; o.push_back((double)x.sampleAction(k % t.S, 3)); o.push_back((double)x.sampleAction((k + 1) % t.S, 2)); return o; }, m, true); }});
     v.push_back({"POMCP", false, 2, [](uint64_t ps) {
         using M = A::POMDP::Model<A::MDP::Model>; auto p = pomdpOf(ps); auto m = std::make_shared<M>(toDense(p));
         auto s = std::make_shared<A::POMDP::POMCP<M>>(*m, 20, 40, 2.0);
-        return wrapObj(s, [p, ps](A::POMDP::POMCP<M> & x, int k) { Rng rb(ps ^ (uint64_t)(5 + k)); auto b = dyadicBelief(rb, p.S); Out o; o.push_back((double)x.sampleAction(b, 3)); return o; }, m); }});
+        return wrapObj(s, [p, ps](A::POMDP::POMCP<M> & x, int k) { Rng rb(ps ^ (uint64_t)(5 + k)); auto b = dyadicBelief(rb, p.S); Out o; o.push_back((double)x.sampleAction(b, 3)); return o; }, m, true); }});
     v.push_back({"rPOMCP", false, 2, [](uint64_t ps) {
         using M = A::POMDP::Model<A::MDP::Model>; auto p = pomdpOf(ps); auto m = std::make_shared<M>(toDense(p));
         auto s = std::make_shared<A::POMDP::rPOMCP<M, true>>(*m, 20, 40, 2.0, 10);
-        return wrapObj(s, [p, ps](A::POMDP::rPOMCP<M, true> & x, int k) { Rng rb(ps ^ (uint64_t)(5 + k)); auto b = dyadicBelief(rb, p.S); Out o; o.push_back((double)x.sampleAction(b, 3)); return o; }, m); }});
+        return wrapObj(s, [p, ps](A::POMDP::rPOMCP<M, true> & x, int k) { Rng rb(ps ^ (uint64_t)(5 + k)); auto b = dyadicBelief(rb, p.S); Out o; o.push_back((double)x.sampleAction(b, 3)); return o; }, m, true); }});
     v.push_back({"PBVI(object)", false, 2, [](uint64_t ps) {
         auto p = pomdpOf(ps); auto m = std::make_shared<A::POMDP::Model<A::MDP::Model>>(toDense(p));
         auto s = std::make_shared<A::POMDP::PBVI>(6, 2, 0.0);
-        return wrapObj(s, [m](A::POMDP::PBVI & x, int) { auto [var, vf] = x(*m); Out o; o.push_back(var); flat(o, vf); return o; }, m); }});
+        return wrapObj(s, [m](A::POMDP::PBVI & x, int) { auto [var, vf] = x(*m); Out o; o.push_back(var); flat(o, vf); return o; }, m); }, true});
     v.push_back({"PERSEUS(object)", false, 2, [](uint64_t ps) {
         auto p = pomdpOf(ps); auto m = std::make_shared<A::POMDP::Model<A::MDP::Model>>(toDense(p));
         auto s = std::make_shared<A::POMDP::PERSEUS>(6, 2, 0.0); double lo = p.R.minCoeff();
-        return wrapObj(s, [m, lo](A::POMDP::PERSEUS & x, int) { auto [var, vf] = x(*m, lo); Out o; o.push_back(var); flat(o, vf); return o; }, m); }});
+        return wrapObj(s, [m, lo](A::POMDP::PERSEUS & x, int) { auto [var, vf] = x(*m, lo); Out o; o.push_back(var); flat(o, vf); return o; }, m); }, true});
     v.push_back({"BeliefGenerator", true, 2, [](uint64_t ps) {
         using M = A::POMDP::Model<A::MDP::Model>; auto p = pomdpOf(ps); if (p.S < 3) p = pomdpOf(ps, 1); auto m = std::make_shared<M>(toDense(p));
         auto s = std::make_shared<A::POMDP::BeliefGenerator<M>>(*m); size_t S = p.S;
-        return wrapObj(s, [S](A::POMDP::BeliefGenerator<M> & x, int k) { auto bl = x(S + 6 + (size_t)k); Out o; o.push_back((double)bl.size()); for (auto & b : bl) flat(o, b); return o; }, m); }});
+        return wrapObj(s, [S](A::POMDP::BeliefGenerator<M> & x, int k) { auto bl = x(S + 6 + (size_t)k); Out o; o.push_back((double)bl.size()); for (auto & b : bl) flat(o, b); return o; }, m, true); }});
     v.push_back({"MaximumLikelihoodModel::sampleSR", false, 3, [](uint64_t ps) {
         auto t = mdpOf(ps); auto e = std::make_shared<A::MDP::Experience>(t.S, t.A);
         { Rng r(ps ^ 77); for (int i = 0; i < 60; ++i) e->record(r.below(t.S), r.below(t.A), r.below(t.S), dyadicReward(r)); }
@@ -511,6 +515,7 @@ void verif::verif_case(Rng & rng, long idx, const std::string &) {
         const uint64_t ps2 = ps ^ 0x2222;
         // interleave: two objects of the class, constructed in the same order; calls in sequence vs interleaved
         Out seq, itl;
+        if (!st.drawsSeeds) {
         { A::Seeder::setRootSeed(root); Obj x = st.make(ps), y = st.make(ps2); Out ox, oy;
           for (int k = 0; k < st.nsteps; ++k) cat(ox, x.step(k));
           for (int k = 0; k < st.nsteps; ++k) cat(oy, y.step(k));
@@ -523,6 +528,7 @@ void verif::verif_case(Rng & rng, long idx, const std::string &) {
         { Obj z = st.make(ps2); A::Seeder::setRootSeed(root); Obj x = st.make(ps); Out ox;
           for (int k = 0; k < st.nsteps; ++k) { ox.push_back((double)0); Out t = x.step(k); ox.back() = (double)t.size(); ox.insert(ox.end(), t.begin(), t.end()); z.step(k); }
           emit(sj.name, "older_object_in_between", a, ox); }
+        }
         // copy: the copy continues exactly like the original (engine state is copied), and copying does not disturb the original
         { A::Seeder::setRootSeed(root); Obj x = st.make(ps);
           if (x.clone) {
